@@ -17,25 +17,31 @@
 (***************************************************************************)
 EXTENDS StreamSched
 CONSTANTS Ids,         \* stream ids that may be opened
+          Windowed,    \* the streams whose flow-control window is modelled (the others always have room)
           RefillSame,  \* FALSE: documented refill rule, TRUE: the code's
           MaxPend, MaxRoom, MaxCredit,
           Caps,        \* packet capacities
-          Ovh          \* bytes of frame header per frame
+          Ovh,         \* bytes of frame header per frame
+          Interleave   \* TRUE: any environment step may fall between two Once calls of one packet; FALSE: only writes do
 VARIABLES m, pk        \* pk: room left in the packet under assembly (0: none)
 vars == <<m, pk>>
 
 MCInit == m = Init0(MaxCredit) /\ pk = 0
 
-Env(x) == m' = x /\ UNCHANGED pk
-DoOpen == \E s \in Ids \ m.created : \E r \in {0, MaxRoom} : Env(Open(m, s, r))
+\* streams outside Windowed get their window back at once
+TopUp(x) == [x EXCEPT !.room = [s \in DOMAIN x.room |->
+                 IF s \notin Windowed /\ x.st[s] \in {"send", "fin"} THEN MaxRoom ELSE x.room[s]]]
+Env(x) == (Interleave \/ pk = 0) /\ m' = x /\ UNCHANGED pk
+DoOpen == \E s \in Ids \ m.created : \E r \in (IF s \in Windowed THEN {0, MaxRoom} ELSE {MaxRoom}) : Env(Open(m, s, r))
 DoWrite == \E s \in m.created : \E n \in 1..MaxPend :
               /\ Live(m, s) /\ m.st[s] = "send" /\ m.pend[s] + n <= MaxPend
-              /\ Env(Write(m, s, n))
+              /\ m' = Write(m, s, n) /\ UNCHANGED pk
 DoShutdown == \E s \in m.created : Live(m, s) /\ m.st[s] = "send" /\ Env(Shutdown(m, s))
 DoCancel == \E s \in m.created : Live(m, s) /\ m.st[s] \in {"send", "fin", "done"} /\ Env(Cancel(m, s))
 DoAckAll == \E s \in m.created : Live(m, s) /\ m.st[s] = "done" /\ Env(AckAll(m, s))
 DoResetAcked == \E s \in m.created : Live(m, s) /\ m.st[s] = "reset" /\ Env(ResetAcked(m, s))
-DoWindowUpdate == \E s \in m.created : Live(m, s) /\ m.room[s] < MaxRoom /\ Env(WindowUpdate(m, s, MaxRoom))
+DoWindowUpdate == \E s \in m.created \cap Windowed :
+                     Live(m, s) /\ m.st[s] \in {"send", "fin"} /\ m.room[s] < MaxRoom /\ Env(WindowUpdate(m, s, MaxRoom))
 DoMaxData == m.credit < MaxCredit /\ Env(MaxData(m, MaxCredit))
 
 StartPack(cap) == pk = 0 /\ pk' = cap /\ m' = NewPack(m)
@@ -48,14 +54,15 @@ DoOnce ==
                LET fin == m.st[s] = "fin" /\ len = m.pend[s]
                    x == Once(m, pk, TRUE, s, len, fin) IN
                /\ x.ok
-               /\ m' = x
+               /\ m' = TopUp(x)
                /\ pk' = Max(0, pk - len - Ovh)
        ELSE m' = Once(m, pk, FALSE, -1, 0, FALSE) /\ pk' = 0
 
 MCNext == DoOpen \/ DoWrite \/ DoShutdown \/ DoCancel \/ DoAckAll \/ DoResetAcked \/ DoWindowUpdate \/ DoMaxData
           \/ (\E cap \in Caps : StartPack(cap)) \/ DoOnce
 
-View == <<m, pk>>
+\* the outcome record of the last call is only read by the liveness properties
+View == <<[m EXCEPT !.res = NoRes], pk>>
 
 \* packets with room keep being assembled and filled
 GoodPack == \E cap \in Caps : cap >= MinRoom /\ StartPack(cap)
@@ -65,7 +72,7 @@ MCSpec == MCInit /\ [][MCNext]_vars /\ SF_vars(GoodPack) /\ WF_vars(DoOnce)
 MCInv == /\ NoAlarm(m) /\ TokensInRange(m) /\ CursorValid(m)
          /\ (~RefillSame => m.soft = "")
          \* WorkConserving at the packet level: an attempt with room that wrote nothing means nothing was sendable
-         /\ (m.res.now /\ ~m.res.ok /\ m.res.rem >= MinRoom => SendSet(m) = {})
+         /\ (m.res.now /\ ~m.res.ok /\ m.res.room => SendSet(m) = {})
 
 Served(s) == m.res.now /\ m.res.ok /\ m.res.sid = s
 \* (1) NoStarvation: a stream cannot stay sendable forever without being served
